@@ -46,3 +46,72 @@ def inline_locals(stmts):
             rest.append(t2)
         stmts = rest
     return stmts
+
+
+# ----------------------------------------------------------------------------------------------------------------------
+# Python-level values bound just before the last statement: index names and tuples of pieces
+
+class _SubstMany(ast.NodeTransformer):
+    def __init__(self, env):
+        self.env = env
+
+    def visit_Name(self, n):
+        if isinstance(n.ctx, ast.Load) and n.id in self.env:
+            return ast.copy_location(ast.parse(ast.unparse(self.env[n.id]), mode="eval").body, n)
+        return n
+
+
+class _FoldTuples(ast.NodeTransformer):
+    """(a, b) + (c, d) -> (a, b, c, d)"""
+
+    def visit_BinOp(self, n):
+        self.generic_visit(n)
+        if isinstance(n.op, ast.Add) and isinstance(n.left, ast.Tuple) and isinstance(n.right, ast.Tuple):
+            return ast.copy_location(ast.Tuple(elts=n.left.elts + n.right.elts, ctx=ast.Load()), n)
+        return n
+
+
+def _python_binding(s):
+    """`a, b, c = range(3)` -> {a: 0, b: 1, c: 2};  `row = (e1, e2)` / `row = other + (e3,)` / `k = 3` -> {name: value}
+    else None.  Only values that Python itself holds (integers, tuples): what a tuple CONTAINS is evaluated where the
+    tuple is written, so such a binding may be moved only across other bindings of this kind."""
+    if not (isinstance(s, ast.Assign) and len(s.targets) == 1):
+        return None
+    t, v = s.targets[0], s.value
+    if isinstance(t, ast.Tuple) and all(isinstance(x, ast.Name) for x in t.elts) and isinstance(v, ast.Call) \
+            and isinstance(v.func, ast.Name) and v.func.id == "range" and len(v.args) == 1 and not v.keywords \
+            and isinstance(v.args[0], ast.Constant) and v.args[0].value == len(t.elts):
+        return {x.id: ast.Constant(value=i) for i, x in enumerate(t.elts)}
+    if isinstance(t, ast.Name):
+        if isinstance(v, ast.Tuple) or (isinstance(v, ast.Constant) and isinstance(v.value, int)
+                                         and not isinstance(v.value, bool)):
+            return {t.id: v}
+        if isinstance(v, ast.BinOp) and isinstance(v.op, ast.Add):      # tuple concatenation, decided after folding
+            return {t.id: v}
+    return None
+
+
+def fold_tail_bindings(stmts):
+    """stmts = prefix + [python-level bindings]* + [last]  ->  prefix + [last with the bindings substituted and tuple
+    concatenations folded].  The bindings must form the unbroken run of statements just before the last one."""
+    stmts = list(stmts)
+    if len(stmts) < 2:
+        return stmts
+    i = len(stmts) - 1
+    while i > 0 and _python_binding(stmts[i - 1]) is not None:
+        i -= 1
+    env = {}
+    for s in stmts[i:-1]:
+        b = _python_binding(s)
+        for name, val in b.items():
+            if name in env:
+                return stmts                      # bound twice: leave the block alone
+            val = _FoldTuples().visit(_SubstMany(env).visit(ast.parse(ast.unparse(val), mode="eval").body))
+            if isinstance(val, ast.BinOp):        # a sum that did not fold into a tuple: not a python-level value
+                return stmts
+            env[name] = val
+    if not env:
+        return stmts
+    last = _FoldTuples().visit(_SubstMany(env).visit(ast.parse(ast.unparse(stmts[-1])).body[0]))
+    ast.fix_missing_locations(last)
+    return stmts[:i] + [last]
